@@ -12,6 +12,9 @@ CHECKS = {
    text="Same enumeration as C01 with the oracle 'parse_module returns': panics are caught per input, aborts/stack overflows are observed as worker deaths on a depth ladder for every self-nesting construct.",
    note="Depth ladder is powers of two up to the tier bound; per-run time caps are reported as caps, never as verdicts.", ref="5/C02"),
 
+ "C03": dict(engine="E1 input-space enumerator", technique="bounded exhaustive enumeration of <=k token edits inside each victim body on the real parser; invariant on every damaged parse",
+   text="For every seed file, every definition with a brace-delimited body and every sequence of <=k edits (insert/delete/replace over the 65-symbol non-opening alphabet, brace-balanced results only) the real parser must keep all other definitions (kind, name, text, order) and place every syntax error inside the damaged region.",
+   note="k=1 on all seeds, k=2 on the two compact seed files (thorough). Seeds must be error-free (guarded).", ref="5/C03"),
  "C13": dict(engine="stateright BFS + in-process router", technique="explicit-state model checking (stateright BFS) with the real Vfs/convert code as transition function, reference LSP client as model; plus exhaustive two-change notifications through the real Server router",
    text="All client documents up to L symbols are states; every valid (start,end,replacement) edit and full-text change is a transition executed on the real Vfs::change_file_content via convert::from_range and compared with the reference client; the line-map freshness invariant checked in every state justifies deduplicating on client text. The per-change loop of on_did_change is covered by all ordered pairs of edits in one notification.",
    note="Bounds in evidence. Trusted: the reference client model (LSP 3.17 positions); the syntax-tree dump as observation of the server text.", ref="5/C13"),
